@@ -468,3 +468,34 @@ Proof.
   rewrite Hrs in Hz. rewrite count_app_local in Hz.
   pose proof (count_nonneg RETRANSMIT pre). pose proof (count_nonneg RETRANSMIT (repeat TIMEOUT n)). lia.
 Qed.
+
+(** ---- total length of the schedule (time from the first transmission to TIMEOUT, in ms) ---- *)
+
+Fixpoint sum_wait (T N : Z) (n : nat) : Z :=
+  match n with O => 0 | S m => sum_wait T N m + wait T N (Z.of_nat (S m)) end.
+
+Lemma sum_wait_prefix T N n : Z.of_nat n < N -> sum_wait T N n = T * (2 ^ Z.of_nat n - 1).
+Proof.
+  induction n as [|m IH]; intros H.
+  - cbn. lia.
+  - cbn [sum_wait]. rewrite IH by lia.
+    unfold wait. assert (E : (Z.of_nat (S m) <? N) || (N <=? 1) = true) by lia. rewrite E.
+    replace (Z.of_nat (S m) - 1) with (Z.of_nat m) by lia.
+    replace (Z.of_nat (S m)) with (Z.succ (Z.of_nat m)) by lia.
+    rewrite Z.pow_succ_r by lia. lia.
+Qed.
+
+Lemma sum_wait_total T N : 3 <= N ->
+  sum_wait T N (Z.to_nat N) = T * (2 ^ (N - 1) + 2 ^ (N - 3) - 1).
+Proof.
+  intros HN. destruct (Z.to_nat N) as [|m] eqn:E; [lia|].
+  cbn [sum_wait]. rewrite sum_wait_prefix by lia.
+  replace (Z.of_nat (S m)) with N by lia. replace (Z.of_nat m) with (N - 1) by lia.
+  unfold wait. assert (E1 : (N <? N) || (N <=? 1) = false) by lia. rewrite E1.
+  replace (N - 2) with (Z.succ (N - 3)) by lia. rewrite Z.pow_succ_r by lia.
+  replace (T * (2 * 2 ^ (N - 3))) with (T * 2 ^ (N - 3) * 2) by lia.
+  rewrite Z.div_mul by lia. lia.
+Qed.
+
+Example sum_wait_default : sum_wait 200 7 7 = 15800 /\ sum_wait 500 3 3 = 2000.
+Proof. vm_compute. split; reflexivity. Qed.
